@@ -251,6 +251,139 @@ func (m *fieldModel) planner(c *Ctx) []planStep {
 		}
 		steps = append(steps, st)
 	}
+	// a table of providers walked by one loop:
+	//   plan := []struct{use *bool; marks, supplies []string}{{&f.UseReceipts, difference(receipt, block, log), receipt}, …}
+	//   for _, p := range plan { if any(needs, p.marks) { *p.use = true; needs = difference(needs, p.supplies) } }
+	unresolved := len(steps) == 0
+	for _, st := range steps {
+		if st.table == "" {
+			unresolved = true
+		}
+	}
+	if unresolved {
+		steps = nil
+		for _, call := range callsToFn(nw, anyFn) {
+			// the element field handed to any()
+			elemField := func(v ssa.Value) (arr ssa.Value, fld int, ok bool) {
+				v = stripConv(v)
+				switch x := v.(type) {
+				case *ssa.Field:
+					if s, _, isE := elemOf(x.X); isE {
+						return s, x.Field, true
+					}
+				case *ssa.UnOp:
+					if fa, isFA := x.X.(*ssa.FieldAddr); isFA {
+						if s, _, isE := elemOf(fa.X); isE {
+							return s, fa.Field, true
+						}
+					}
+				}
+				return nil, 0, false
+			}
+			arr, marksFld, ok := elemField(call.Call.Args[1])
+			if !ok {
+				continue
+			}
+			// the backing array literal of the ranged slice
+			var lit *ssa.Alloc
+			base := stripConv(arr)
+			for i := 0; i < 4 && lit == nil; i++ {
+				switch x := base.(type) {
+				case *ssa.Slice:
+					base = stripConv(x.X)
+				case *ssa.Alloc:
+					if _, isArr := x.Type().Underlying().(*types.Pointer).Elem().Underlying().(*types.Array); isArr {
+						lit = x
+					} else if cv := cellValue(x); cv != nil {
+						base = stripConv(cv)
+					}
+				case *ssa.UnOp:
+					base = stripConv(x.X)
+				default:
+					i = 4
+				}
+			}
+			if lit == nil {
+				continue
+			}
+			// on the any-true path: the flag behind the element's pointer field is set, needs is reduced by another field
+			anyT, _ := boolEdges(call)
+			useFld, suppFld := -1, -1
+			allInstrs(nw, func(in ssa.Instruction) {
+				switch x := in.(type) {
+				case *ssa.Store:
+					if cst, isC := x.Val.(*ssa.Const); isC && cst.Value != nil && cst.Value.String() == "true" && guardedByEdges(nw, x, anyT) {
+						if a2, f2, ok2 := elemField(x.Addr); ok2 && sameVar(a2, arr) {
+							useFld = f2
+						}
+					}
+				case *ssa.Call:
+					if staticCallee(x) == diff && guardedByEdges(nw, x, anyT) {
+						if vs, ok2 := varargValues(x.Call.Args[1]); ok2 && len(vs) == 1 {
+							if a2, f2, ok3 := elemField(vs[0]); ok3 && sameVar(a2, arr) {
+								suppFld = f2
+							}
+						}
+					}
+				}
+			})
+			if useFld < 0 || suppFld < 0 {
+				continue
+			}
+			// rows of the literal, in index order
+			rows := map[int64]map[int]ssa.Value{}
+			for _, ref := range *lit.Referrers() {
+				ia, isIA := ref.(*ssa.IndexAddr)
+				if !isIA {
+					continue
+				}
+				k, okk := constInt(ia.Index)
+				if !okk {
+					continue
+				}
+				for _, r2 := range *ia.Referrers() {
+					fa, isFA := r2.(*ssa.FieldAddr)
+					if !isFA {
+						continue
+					}
+					for _, r3 := range *fa.Referrers() {
+						if st, isSt := r3.(*ssa.Store); isSt && st.Addr == ssa.Value(fa) {
+							if rows[k] == nil {
+								rows[k] = map[int]ssa.Value{}
+							}
+							rows[k][fa.Field] = st.Val
+						}
+					}
+				}
+			}
+			for k := int64(0); k < int64(len(rows)); k++ {
+				row := rows[k]
+				if row == nil {
+					break
+				}
+				st := planStep{pos: call.Pos()}
+				mv := stripConv(row[marksFld])
+				if t := m.tableOfGlobal(mv); t != "" {
+					st.table = t
+				} else if dc, ok := mv.(*ssa.Call); ok && staticCallee(dc) == diff {
+					st.table = m.tableOfGlobal(dc.Call.Args[0])
+					if vs, ok := varargValues(dc.Call.Args[1]); ok {
+						for _, v := range vs {
+							st.minus = append(st.minus, m.tableOfGlobal(v))
+						}
+					}
+				}
+				st.subTable = m.tableOfGlobal(stripConv(row[suppFld]))
+				if fa, ok := stripConv(row[useFld]).(*ssa.FieldAddr); ok {
+					st.flag, _ = fieldOf(fa)
+				}
+				steps = append(steps, st)
+			}
+		}
+		if len(steps) > 0 {
+			return steps
+		}
+	}
 	seenHelper := map[*ssa.Function]bool{}
 	for _, ci := range callsIn(nw) {
 		h := regionCallee(ci)
@@ -331,28 +464,51 @@ func (m *fieldModel) dispatch(c *Ctx) {
 	w := c.W
 	get := w.Fn("jrpc2", "(*Client).Get")
 	filterT := w.Named("shovel/glf", "Filter")
+	// Get with its single-use plain helpers inlined (the provider dispatch may be extracted);
+	// the fetch routines themselves (methods of Client) are not looked into
+	greg := NewRegion(get)
+	var dispFns []*ssa.Function
+	for _, f := range greg.Funcs() {
+		if f != get && f.Signature.Recv() != nil && repoNamedIs(f.Signature.Recv().Type(), "jrpc2", "Client") {
+			switch f.Name() {
+			case "blocks", "headers", "receipts", "logs", "traces", "do":
+				continue
+			}
+		}
+		if f != get && f.Pkg != get.Pkg {
+			continue
+		}
+		dispFns = append(dispFns, f)
+	}
 	flagEdges := map[*types.Var][2][]Edge{}
-	allInstrs(get, func(in ssa.Instruction) {
-		u, ok := in.(*ssa.UnOp)
-		if !ok || u.Op != token.MUL {
-			return
-		}
-		f, base := fieldOf(u.X)
-		if f == nil || namedOf(base.Type()) != filterT {
-			return
-		}
-		if b, ok := f.Type().Underlying().(*types.Basic); !ok || b.Kind() != types.Bool {
-			return
-		}
-		t, fl := boolEdges(u)
-		cur := flagEdges[f]
-		cur[0] = append(cur[0], t...)
-		cur[1] = append(cur[1], fl...)
-		flagEdges[f] = cur
-	})
+	for _, df := range dispFns {
+		allInstrs(df, func(in ssa.Instruction) {
+			u, ok := in.(*ssa.UnOp)
+			if !ok || u.Op != token.MUL {
+				return
+			}
+			f, base := fieldOf(u.X)
+			if f == nil || namedOf(base.Type()) != filterT {
+				return
+			}
+			if b, ok := f.Type().Underlying().(*types.Basic); !ok || b.Kind() != types.Bool {
+				return
+			}
+			t, fl := boolEdges(u)
+			cur := flagEdges[f]
+			cur[0] = append(cur[0], t...)
+			cur[1] = append(cur[1], fl...)
+			flagEdges[f] = cur
+		})
+	}
 	// routines: direct calls to (*Client).x or bound-method values passed to cache.get
 	routineOfCall := func(ci ssa.CallInstruction) *ssa.Function {
 		if f := staticCallee(ci); f != nil && f.Signature.Recv() != nil && repoNamedIs(f.Signature.Recv().Type(), "jrpc2", "Client") && f.Name() != "Get" {
+			for _, df := range dispFns {
+				if df == f {
+					return nil // a dispatch helper, not a routine
+				}
+			}
 			return f
 		}
 		for _, a := range ci.Common().Args {
@@ -366,23 +522,25 @@ func (m *fieldModel) dispatch(c *Ctx) {
 		}
 		return nil
 	}
-	for _, ci := range callsIn(get) {
-		r := routineOfCall(ci)
-		if r == nil {
-			continue
-		}
-		var flags []*types.Var
-		for f := range flagEdges {
-			flags = append(flags, f)
-		}
-		sort.Slice(flags, func(i, j int) bool { return flags[i].Name() < flags[j].Name() })
-		for _, f := range flags {
-			ed := flagEdges[f]
-			if guardedByEdges(get, ci, ed[0]) {
-				m.routOf[f] = r
+	for _, df := range dispFns {
+		for _, ci := range callsIn(df) {
+			r := routineOfCall(ci)
+			if r == nil {
+				continue
 			}
-			if guardedByEdges(get, ci, ed[1]) {
-				m.supp[r] = append(m.supp[r], f)
+			var flags []*types.Var
+			for f := range flagEdges {
+				flags = append(flags, f)
+			}
+			sort.Slice(flags, func(i, j int) bool { return flags[i].Name() < flags[j].Name() })
+			for _, f := range flags {
+				ed := flagEdges[f]
+				if greg.Guarded(ci, ed[0]) {
+					m.routOf[f] = r
+				}
+				if greg.Guarded(ci, ed[1]) {
+					m.supp[r] = append(m.supp[r], f)
+				}
 			}
 		}
 	}
